@@ -11,6 +11,7 @@ import TonVerif.Proofs.CostTl
 import TonVerif.Generated.TlCostTable
 import TonVerif.Proofs.SrcTl
 import TonVerif.Generated.TlFraming
+import TonVerif.Proofs.SrcBocDeser
 
 namespace TonVerif.Properties.C19
 open TonVerif TonVerif.Model TonVerif.Model.Cost TonVerif.Proofs.Cost
@@ -322,5 +323,44 @@ example : Generated.tlVecTooLong (2 ^ 22) 4 4 = true ∧ Generated.tlVecTooLong 
       (Generated.tlHdrAttach [5, 104, 101, 108, 108, 111, 0, 0] 0) = 8 := by decide
 
 end Src
+/-! ## the BoC parser whose loops `bocCost` counts, on the working tree (regenerated from the source on every run) -/
+
+/-- SOURCE TIE of the parser whose work `c19_boc_parse` / `c19_boc_parse_all` bound: `Generated.BocCells.deserialize` is
+regenerated on every run from `Boc.deserialize` / `deserialize_cell` / `deserialize_boc_header` (C05: `c05_src_deserialize`).
+Its three loops are `Py.loop?` over `range(cells_num)`, `reversed(range(cells_num))` and `root_list` - a `Py.loop?` runs its
+body at most once per element - with one inner loop over the references of the current record, and it is equal, for every byte
+list and every constructor, to the hand model `Model.BocParse.deserialize` whose recursions (`readCells` on `cells_num`,
+`rebuildFrom` on the records, `mapM` on the root list) `Model/Cost.lean`'s `bocCost` transcribes as counters.
+NOT proved: that the counters of `bocCost` are the iteration counts of these loops (the cost model is an independent
+transcription; its tie stays the measured line-count inequality). -/
+theorem c19_src_parse {R : Type} (mk : Bits → List R → Int → Option R) (data : Bytes) :
+    Generated.BocCells.deserialize data (Generated.BocCells.liftMk mk) = (Model.BocParse.deserialize mk data).map (·.map some) :=
+  TonVerif.Proofs.SrcBocDeser.src_deserialize_eq mk data
+
+/-- iterations a translated loop (`Py.loop?`) starts, counting one that raises or breaks. -/
+def loopIters {ι σ : Type} : List ι → σ → (ι → σ → Option (σ × Bool)) → Nat
+  | [], _, _ => 0
+  | x :: xs, s, f => match f x s with
+    | none => 1
+    | some r => if r.2 then 1 else 1 + loopIters xs r.1 f
+
+/-- a translated `for` loop starts at most one iteration per element of the iterated list, whatever its body does. -/
+theorem c19_src_loop_iterations {ι σ : Type} (f : ι → σ → Option (σ × Bool)) :
+    ∀ (xs : List ι) (s : σ), loopIters xs s f ≤ xs.length := by
+  intro xs
+  induction xs with
+  | nil => intro s; simp [loopIters]
+  | cons x xs ih =>
+    intro s
+    unfold loopIters
+    cases h : f x s with
+    | none => simp
+    | some r =>
+      simp only []
+      split
+      · simp
+      · have := ih r.1; simp; omega
+
+example : loopIters [1, 2, 3] 0 (fun x s => if x = 2 then some (s, true) else some (s + x, false)) = 2 := by decide
 
 end TonVerif.Properties.C19
